@@ -6,10 +6,116 @@ import os
 import recheck
 
 EVENT_BUDGET = {"quick": 20000, "thorough": 200000}
+# properties whose deciding oracle is the offline checker (every event is logged and judged)
+PRIMARY_OFFLINE = {"C13"}
+
+
+CFG_ENV = {
+    "precision": "RUST_BIGDECIMAL_DEFAULT_PRECISION",
+    "mode": "RUST_BIGDECIMAL_DEFAULT_ROUNDING_MODE",
+    "lower": "RUST_BIGDECIMAL_FMT_EXPONENTIAL_LOWER_THRESHOLD",
+    "upper": "RUST_BIGDECIMAL_FMT_EXPONENTIAL_UPPER_THRESHOLD",
+    "padding": "RUST_BIGDECIMAL_FMT_MAX_INTEGER_PADDING",
+}
+MODES = ["Up", "Down", "Ceiling", "Floor", "HalfUp", "HalfDown", "HalfEven"]
+PRECISIONS = [1, 2, 3, 7, 16, 34, 100, 250]
+LOWERS = [1, 5, 9]
+UPPERS = [0, 2, 15, 40]
+PADDINGS = [0, 5, 1000]
+
+
+def cfg_env(cfg):
+    return {CFG_ENV[k]: str(v) for k, v in cfg.items()}
+
+
+def c20_configs(tier, seed):
+    quick = [
+        (1, "Up", 1, 0, 0), (2, "Down", 5, 2, 5), (3, "Ceiling", 9, 15, 1000), (7, "Floor", 1, 40, 5),
+        (16, "HalfUp", 5, 0, 1000), (34, "HalfDown", 9, 2, 0), (100, "HalfEven", 5, 15, 1000),
+        (250, "HalfDown", 1, 15, 0), (2, "HalfEven", 9, 40, 5), (3, "HalfUp", 1, 2, 1000),
+    ]
+    if tier == "quick":
+        cfgs = quick
+    else:
+        # every (precision, mode) pair once; the three Display settings cycle so that all pairs of
+        # their values occur as well (seed rotates the assignment)
+        cfgs = list(quick)
+        i = seed
+        for p in PRECISIONS:
+            for m in MODES:
+                c = (p, m, LOWERS[i % 3], UPPERS[(i // 3) % 4], PADDINGS[(i // 12 + i) % 3])
+                i += 1
+                if c not in cfgs:
+                    cfgs.append(c)
+    return [dict(precision=c[0], mode=c[1], lower=c[2], upper=c[3], padding=c[4]) for c in cfgs]
+
+
+def merge_profile(acc, r):
+    if acc is None:
+        return json.loads(json.dumps(r))
+    for k in ("evaluations", "cases", "held", "distinct_nontrivial", "panics_caught", "enumerated_nontrivial", "wall_s"):
+        acc[k] = acc.get(k, 0) + r.get(k, 0)
+    acc["distinct_path_signatures"] = max(acc.get("distinct_path_signatures", 0), r.get("distinct_path_signatures", 0))
+    for k in ("probe_hits", "violation_counts", "notes"):
+        for a, b in r.get(k, {}).items():
+            acc.setdefault(k, {})[a] = acc.get(k, {}).get(a, 0) + b
+    for a, b in r.get("max_loop_iterations", {}).items():
+        acc.setdefault("max_loop_iterations", {})[a] = max(acc.get("max_loop_iterations", {}).get(a, 0), b)
+    acc["unreached_probes"] = [x for x in acc.get("unreached_probes", []) if x in r.get("unreached_probes", [])]
+    for x in r.get("exhaustive_subspaces", []):
+        if x not in acc.setdefault("exhaustive_subspaces", []):
+            acc["exhaustive_subspaces"].append(x)
+    acc["samples"] = (acc.get("samples", []) + r.get("samples", [])[:1])[:10]
+    acc["distinct_capped"] = acc.get("distinct_capped", False) or r.get("distinct_capped", False)
+    return acc
+
+
+def run_c20(drv, prop, tier, seed):
+    cfgs = c20_configs(tier, seed)
+    merged = {"rel": None, "chk": None}
+    outcome = {"violations": [], "notes": {"profile_divergent_units": 0}, "cfg_for": {}, "extra_coverage": {}, "extra_samples": []}
+    rechecked = 0
+    per_cfg = []
+    for i, cfg in enumerate(cfgs):
+        bins = drv.build(prop, extra_env=cfg_env(cfg), target_suffix="-cfg")
+        extra = []
+        for k, v in cfg.items():
+            extra += ["--cfg", "%s=%s" % (k, v)]
+        o = drv.standard_run(prop, tier, seed, extra_args=extra, bins=bins, event_budget=50_000_000, tag=".cfg%d" % i)
+        for v, p in o["violations"]:
+            v = dict(v)
+            v["detail"] = "[configuration %s] %s" % (json.dumps(cfg, sort_keys=True), v.get("detail", ""))
+            outcome["cfg_for"][id(v)] = {k: str(x) for k, x in cfg.items()}
+            outcome["violations"].append((v, p))
+        outcome["notes"]["profile_divergent_units"] += o["notes"].get("profile_divergent_units", 0)
+        if o.get("events") and os.path.exists(o["events"]):
+            rep = recheck.recheck_file(prop, o["events"])
+            rechecked += rep["checked"]
+            for v in rep.get("violations", []):
+                v["detail"] = "[configuration %s] %s" % (json.dumps(cfg, sort_keys=True), v.get("detail", ""))
+                outcome["cfg_for"][id(v)] = {k: str(x) for k, x in cfg.items()}
+                outcome["violations"].append((v, "rel/offline"))
+            if rep["disagreements"]:
+                outcome["inconclusive"] = "offline-checker-disagrees-with-model"
+        for p in ("rel", "chk"):
+            merged[p] = merge_profile(merged[p], o["results"][p])
+        per_cfg.append({"configuration": cfg, "cases": o["results"]["rel"].get("cases"), "evaluations": o["results"]["rel"].get("evaluations"),
+                        "violation_signatures": sorted(set(list(o["results"]["rel"].get("violation_counts", {})) + list(o["results"]["chk"].get("violation_counts", {}))))})
+    # violation counts are re-derived by the driver from the merged per-profile files
+    outcome["results"] = merged
+    outcome["extra_coverage"]["configurations"] = per_cfg
+    outcome["extra_coverage"]["configurations_built"] = len(cfgs)
+    outcome["extra_coverage"]["offline_rechecked"] = rechecked
+    outcome["assumptions"] = ["%d of the 8*7*3*4*3 = 2016 configurations are built (every precision, every mode, every threshold and padding value at least once; all precision x mode pairs in the thorough tier)" % len(cfgs)]
+    return outcome
 
 
 def run_property(drv, prop, tier, seed):
+    if prop == "C20":
+        return run_c20(drv, prop, tier, seed)
     budget = EVENT_BUDGET[tier] if prop in recheck.CHECKERS else 0
+    if prop in PRIMARY_OFFLINE:
+        budget = 50_000_000  # the offline checker is the oracle: log every case
     outcome = drv.standard_run(prop, tier, seed, event_budget=budget)
     if budget and outcome.get("events") and os.path.exists(outcome["events"]):
         rep = recheck.recheck_file(prop, outcome["events"])
